@@ -2,6 +2,12 @@
 DEFERRED = "rules for this property are not armed yet (build order: DESIGN.md Appendix D); not claimed until a self-tested rule exists"
 
 CLAIMS = {
+    "C18": {
+        "level": "other",
+        "text": "Shape clauses of the TLS upgrade (default-features build): the TLS stream is seeded with bytes[len-remaining..] (affine) and remaining := 0 on every path, the prepending reader is Cursor(prepended.to_vec()).chain(socket) and forwards write/flush to the socket half, SwitchableConn forwards read/write/flush to the active variant in all 6 arms, the plain socket is taken out and wrapped (no second handle), the switch has one call site reached in a clean connection state, a client requesting TLS without a configuration is refused before the shim, and the TLS path runs switch -> read -> parse(after_tls) -> username -> certificates -> after_authentication. The behaviour of rustls over arbitrary chunkings, certificate delivery and absence of plaintext produced inside rustls are NOT decided.",
+        "note": "Trusted: rustls, std::io::Chain/Cursor. Relies on C01.window-invariant for the meaning of bytes[len-remaining..].",
+        "technique": "affine slice-offset analysis, delegation table check, typestate at the switch site, path-order rules over the handshake",
+    },
     "C06": {
         "level": "other",
         "text": "Cell framing, NULL marker and text grammar of the text protocol encoders: every to_mysql_text path emits exactly one lenenc string through the library writer, or FB (only on the None path), or one delegation; text-mode write_col encodes once into the connection and end_row ends one packet; the compiled format_args! template of each encoder is decoded and compared, with the origin of each argument, to the MySQL literal grammar (`{}` of the value for integers/floats; %04-%02-%02 [%02:%02:%02[.%06]] of the named chrono accessors with the fraction exactly when non-zero; TIME %02:%02:%02[.%06] of secs/3600, secs%3600/60, secs%60, subsec_micros). What Display prints for numbers and how a client parses text back is NOT decided (std / client behaviour).",
